@@ -1094,3 +1094,119 @@ Proof.
     + (* default *)
       unfold C02Spec.default_same. cbn [g_default]. rewrite Hdef. apply same_default_back.
 Qed.
+
+(* ------------------------------------------------------------------ *)
+(* the ** parameter                                                    *)
+(* ------------------------------------------------------------------ *)
+Definition opt_dict : str := L "Optional[dict]".
+
+Lemma fld_eqb_eq : forall a b, fld_eqb a b = true -> a = b.
+Proof. intros [| |a] [| |b] H; try discriminate; try reflexivity. cbn in H. apply str_eqb_eq in H. subst; reflexivity. Qed.
+
+Lemma kwargs_entry_codec : forall et kn kg dp,
+  kwargs_name kn = true -> kwargs_class kg = None -> doc_entry_agrees et kn kg dp = true ->
+  fld_present (g_typ dp) = true
+  /\ exists rp, snt_param kn (mkG (g_doc dp) (g_typ dp) (Some (DV (VStr NoneStr)))) false true = Ok rp
+                /\ same_param_fn kg rp = true.
+Proof.
+  intros et kn kg dp Hkn Hcls Hag. unfold kwargs_class in Hcls.
+  destruct (has_prose kg) eqn:Ehp; [|discriminate]. cbn [negb] in Hcls.
+  destruct (prose_class kg) eqn:Epc; [discriminate|].
+  destruct (fld_eqb (g_typ kg) (Has (L "Optional[dict]"))) eqn:Et; [|discriminate]. cbn [andb] in Hcls.
+  destruct (g_default kg) as [dv|] eqn:Ed; [|discriminate].
+  destruct (C02Spec.d_none_like dv) eqn:Edn; [|discriminate].
+  apply fld_eqb_eq in Et.
+  unfold doc_entry_agrees in Hag. rewrite Hkn in Hag. unfold has_prose in Ehp.
+  destruct (prose_of kg) as [x|] eqn:Epr; [|discriminate].
+  apply andb_true_iff in Hag. destruct Hag as [Hy Hrest]. apply andb_true_iff in Hrest. destruct Hrest as [Hty Hdf].
+  apply fld_eqb_eq in Hty. rewrite Et in Hty.
+  destruct (g_doc dp) as [| |y] eqn:Edoc; try discriminate. apply str_eqb_eq in Hy.
+  split; [rewrite Hty; reflexivity|].
+  assert (Hkl : kwargs_like kn = true) by (unfold kwargs_like; unfold kwargs_name in Hkn; rewrite Hkn; reflexivity).
+  unfold snt_param, snt_pre. rewrite Hkl. cbn [g_typ g_default g_doc]. rewrite Hty.
+  change (str_eqb (L "Optional[dict]") (L "dict")) with false. cbv iota. cbn [bind].
+  eexists. split.
+  - apply snt_post_codec.
+    + intros t Ht. inversion Ht; subst t. vm_compute. reflexivity.
+    + intros c r _ _. right. exists (L "Optional[dict]"). split; [reflexivity|vm_compute; reflexivity].
+  - unfold same_param_fn. cbn [g_typ g_doc g_default].
+    apply andb_true_iff. split; [apply andb_true_iff; split|].
+    + unfold C02Spec.same_typ. cbn [g_typ]. rewrite Et. cbn [fget C02Spec.opt_str_eqb]. apply str_eqb_refl.
+    + unfold C02Spec.same_prose. fold (prose_of kg). rewrite Epr. cbn [g_doc].
+      destruct y as [|c r].
+      * rewrite reflow_nil in Hy. unfold prose_of, C02Spec.prose_of in Epr.
+        destruct (g_doc kg) as [| |[|? ?]]; try discriminate. inversion Epr; subst; discriminate.
+      * cbn [rdoc]. rewrite <- Hy.
+        unfold prose_of, C02Spec.prose_of in Epr. destruct (g_doc kg) as [| |[|c0 r0]]; try discriminate. inversion Epr; subst x.
+        cbn [C02Spec.prose_of g_doc C02Spec.opt_str_eqb]. apply str_eqb_refl.
+    + unfold C02Spec.default_same. cbn [g_default]. rewrite Ed. unfold C02Spec.same_default. rewrite Edn.
+      cbn [C02Spec.d_none_like]. rewrite in_none_types_NoneStr. reflexivity.
+Qed.
+
+(* ------------------------------------------------------------------ *)
+(* lists of parameters: small facts                                    *)
+(* ------------------------------------------------------------------ *)
+Lemma NoDup_fst_filter : forall (f : str * gparam -> bool) P, NoDup (map fst P) -> NoDup (map fst (filter f P)).
+Proof.
+  intros f P; induction P as [|[n g] P IH]; intros Hnd; cbn [filter map]; [constructor|].
+  cbn [map fst] in Hnd. inversion Hnd as [|? ? Hn Hr]; subst. destruct (f (n, g)); cbn [map fst].
+  - constructor; [|apply IH; exact Hr]. intros Hx. apply Hn. apply in_map_iff in Hx. destruct Hx as [kv [Hk Hx]].
+    apply filter_In in Hx. apply in_map_iff. exists kv. tauto.
+  - apply IH; exact Hr.
+Qed.
+
+Lemma forallb_od_pop : forall (f : str * gparam -> bool) k l, forallb f l = true -> forallb f (od_pop k l) = true.
+Proof.
+  intros f k l; induction l as [|[k0 v0] l IH]; intros H; cbn [od_pop]; [reflexivity|].
+  cbn [forallb] in H. apply andb_true_iff in H. destruct H as [H1 H2].
+  destruct (str_eqb k k0); [exact H2|]. cbn [forallb]. rewrite H1, (IH H2). reflexivity.
+Qed.
+
+Lemma kwarg_reparsed : forall o i, ar_kwarg (reparsed_arguments o i) = kwarg_of i.
+Proof. intros o i. unfold reparsed_arguments. destruct (fo_kwonly o); reflexivity. Qed.
+
+Lemma nkp_In : forall i n g, In (n, g) (nkp i) <-> In (n, g) (ir_params i) /\ kwargs_name n = false.
+Proof.
+  intros i n g. unfold nkp. rewrite filter_In. unfold EmitAst.no_kwargs, kwargs_name. cbn [fst].
+  split; intros [H1 H2]; (split; [exact H1|]); [apply negb_true_iff in H2|apply negb_true_iff]; exact H2.
+Qed.
+
+Lemma kwp_In : forall i n g, In (n, g) (kwp i) <-> In (n, g) (ir_params i) /\ kwargs_name n = true.
+Proof.
+  intros i n g. unfold kwp. rewrite filter_In. unfold EmitAst.no_kwargs, kwargs_name. cbn [fst].
+  rewrite negb_involutive. tauto.
+Qed.
+
+Lemma sig_entries_no_DO : forall o l, no_DO (map (sig_entry_of o) l).
+Proof.
+  intros o l k p H r Hr. apply od_get_Some_In in H. apply in_map_iff in H. destruct H as [kv [He _]].
+  unfold sig_entry_of, func_arg2param in He. inversion He; subst p. cbn [g_default option_map] in Hr. discriminate.
+Qed.
+
+Lemma sig_entries_modelled : forall o l, params_modelled (map (sig_entry_of o) l) = true.
+Proof.
+  intros o l. unfold params_modelled. induction l as [|kv l IH]; cbn [map forallb]; [reflexivity|]. rewrite IH. reflexivity.
+Qed.
+
+Lemma sig_entries_get : forall o l n g, NoDup (map fst l) -> In (n, g) l ->
+  od_get n (map (sig_entry_of o) l) = Some (sig_gparam (mkArg n (ann_of o g)) (Some (rdflt g))).
+Proof.
+  intros o l n g Hnd Hin. apply In_od_get; [rewrite sig_entries_keys; exact Hnd|].
+  apply in_map_iff. exists (n, g). split; [reflexivity|exact Hin].
+Qed.
+
+(* keys after the merge and the sort into signature order *)
+Lemma sorted_keys : forall S T O m, NoDup S -> od_keys O = S -> (forall k, In k (od_keys T) -> In k S) ->
+  merge_params id_perm T O = Ok m -> od_keys (sort_by_sig S m) = S.
+Proof.
+  intros S T O m HS HO HT Hm. apply merge_params_keys in Hm; [|rewrite HO; exact HS]. rewrite HO in Hm.
+  rewrite sort_by_sig_keys by exact HS. rewrite Hm.
+  rewrite (filter_all_true (fun k => mem_str k (od_keys T ++ filter (fun k0 => negb (mem_str k0 (od_keys T))) S)) S).
+  - rewrite filter_app.
+    rewrite (filter_all_false _ (od_keys T)) by (intros k Hk; apply negb_false_iff; apply mem_str_In; apply HT; exact Hk).
+    rewrite (filter_all_false _ (filter _ S)); [apply app_nil_r|].
+    intros k Hk. apply filter_In in Hk. destruct Hk as [Hk _]. apply negb_false_iff. apply mem_str_In; exact Hk.
+  - intros k Hk. apply mem_str_In. destruct (mem_str k (od_keys T)) eqn:E.
+    + apply in_or_app; left. apply mem_str_In; exact E.
+    + apply in_or_app; right. apply filter_In. split; [exact Hk|rewrite E; reflexivity].
+Qed.
